@@ -37,9 +37,15 @@ def main():
     assert r.returncode == 0, r.stdout
     out = {'property': prop, 'ran': []}
     try:
-        diff = os.path.join(src, 'mut%s.diff' % k)
-        demo = os.path.join(src, 'demo%s.py' % k)
-        meta = json.load(open(os.path.join(src, 'meta%s.json' % k)))
+        if os.path.exists(os.path.join(src, 'patch.diff')):       # re-check of an already stored change (seeded/<id>/)
+            diff, demo = os.path.join(src, 'patch.diff'), os.path.join(src, 'demo.py')
+            meta = json.load(open(os.path.join(src, 'meta.json')))
+            for kk in ('confirmation', 'checks_run', 'detected_by'):
+                meta.pop(kk, None)
+        else:
+            diff = os.path.join(src, 'mut%s.diff' % k)
+            demo = os.path.join(src, 'demo%s.py' % k)
+            meta = json.load(open(os.path.join(src, 'meta%s.json' % k)))
         r = sh('/venv/bin/python %s %s/src' % (demo, wt))
         out['demo_clean_exit'] = r.returncode
         r = sh('git -C %s apply --3way %s' % (wt, diff))
@@ -63,8 +69,10 @@ def main():
         dst = os.path.join(ROOT, 'seeded', name)
         if confirmed:
             os.makedirs(dst, exist_ok=True)
-            shutil.copy(diff, os.path.join(dst, 'patch.diff'))
-            shutil.copy(demo, os.path.join(dst, 'demo.py'))
+            if os.path.abspath(diff) != os.path.abspath(os.path.join(dst, 'patch.diff')):
+                shutil.copy(diff, os.path.join(dst, 'patch.diff'))
+                shutil.copy(demo, os.path.join(dst, 'demo.py'))
+            meta['base_commit'] = sh('git -C /repo rev-parse --short HEAD').stdout.strip()
             meta.update({'breaks': prop, 'needs_to_manifest': meta.get('needs'), 'confirmation': {
                 'tests_with_change': out['tests_with_change'], 'demo_exit_with_change': out['demo_mutated_exit'],
                 'demo_exit_without_change': out['demo_clean_exit']}, 'checks_run': out['ran'], 'detected_by': detected})
